@@ -357,6 +357,9 @@ fn gen_module(id: usize, sh: &Shape) -> String {
     // (3) per-field interpolation against the linear reference; (4) metadata
     s += &format!("        let tl = {w}::timeline().duration_seconds(2.0).delay_seconds(0.5).repeat(Repeat::Times(1))\n");
     let mut frames: Vec<Vec<(f64, f64)>> = vec![vec![]; n];
+    // odd shape numbers give every (position, field) its own keyframe, so several keyframes share a
+    // position (each defining a different field); even ones group the fields of a position in one keyframe
+    let split = id % 2 == 1;
     for (slot, &p) in [0.0f64, 0.25, 0.5, 0.75, 1.0].iter().enumerate() {
         let mut kf = format!("            .keyframe({w}::keyframe({p:?})");
         let mut any = false;
@@ -365,9 +368,13 @@ fn gen_module(id: usize, sh: &Shape) -> String {
             let hit = slot == (i % 3) + 1 || (slot == 4 && i % 2 == 0) || (slot == 0 && i % 4 == 3);
             if hit {
                 let val = 10 + 7 * slot + i;
-                kf += &format!(".f{i}({} as {})", val, ty(i));
+                if split {
+                    s += &format!("            .keyframe({w}::keyframe({p:?}).f{i}({} as {}))\n", val, ty(i));
+                } else {
+                    kf += &format!(".f{i}({} as {})", val, ty(i));
+                    any = true;
+                }
                 frames[i].push((p, val as f64));
-                any = true;
             }
         }
         kf += ")\n";
@@ -552,7 +559,7 @@ pub fn run(run: Run) -> ! {
     cov.insert("programs_compiled".into(), json!(compiled));
     cov.insert("evaluations".into(), json!(shapes_a + checks));
     cov.insert("distinct_nontrivial".into(), json!(shapes_a));
-    cov.insert("rule".into(), json!(format!("Layer A (in-process expansion of the real derive source, parsed as a syn::File): ALL struct shapes with {} fields over types {{f32,f64,u8,i16,i32,u32}} x every #[animate] subset x struct visibility {{private,pub,pub(crate)}} (field visibilities rotated) x {{local, #[animate(remote = ...)] proxy (bare identifier or module-qualified path)}}, with doc comments / #[allow] / #[cfg] attributes before or after the #[animate] marker and on the struct (rotated over all shapes, and exhaustively for 1..2 fields); oracle: animated field set = attributed fields, or all if none is attributed; the keyframe builder has exactly one public setter per animated field with the field's type, keyframe data and t_<field> sub-timelines likewise, keyframe_from / values_from / update / start_with touch exactly the animated fields and are wired name-to-name, Target is the (remote) type, visibility copied, accessors forwarded to the time scale. Layer B: {} shapes compiled with the real derive: setter presence observed at run time (inherent-vs-trait method resolution), keyframe_from copies exactly the animated fields, un-animated fields keep sentinels, every animated field interpolates per a linear reference on a 41-point time grid (delay, two cycles, after the end), metadata accessors return the configured values ({} run-time checks)", if thorough { "1..5 (6 types) and 6 (3 types)" } else { "1..4" }, compiled, checks)));
+    cov.insert("rule".into(), json!(format!("Layer A (in-process expansion of the real derive source, parsed as a syn::File): ALL struct shapes with {} fields over types {{f32,f64,u8,i16,i32,u32}} x every #[animate] subset x struct visibility {{private,pub,pub(crate)}} (field visibilities rotated) x {{local, #[animate(remote = ...)] proxy (bare identifier or module-qualified path)}}, with doc comments / #[allow] / #[cfg] attributes before or after the #[animate] marker and on the struct (rotated over all shapes, and exhaustively for 1..2 fields); oracle: animated field set = attributed fields, or all if none is attributed; the keyframe builder has exactly one public setter per animated field with the field's type, keyframe data and t_<field> sub-timelines likewise, keyframe_from / values_from / update / start_with touch exactly the animated fields and are wired name-to-name, Target is the (remote) type, visibility copied, accessors forwarded to the time scale. Layer B: {} shapes compiled with the real derive: setter presence observed at run time (inherent-vs-trait method resolution), keyframe_from copies exactly the animated fields, un-animated fields keep sentinels, every animated field interpolates per a linear reference on a 41-point time grid (in every other shape each (position, field) is its own keyframe, so keyframes share positions) (delay, two cycles, after the end), metadata accessors return the configured values ({} run-time checks)", if thorough { "1..5 (6 types) and 6 (3 types)" } else { "1..4" }, compiled, checks)));
     cov.insert("exhaustive".into(), json!(true));
     cov.insert("compiled_runtime_checks".into(), json!(checks));
     cov.insert("samples".into(), json!(acc.samples));
